@@ -13,6 +13,7 @@ import (
 
 	"github.com/alibaba/RedisShake/pkg/libs/log"
 	conf "github.com/alibaba/RedisShake/redis-shake/configure"
+	"github.com/alibaba/RedisShake/verifrt/crcref"
 	"github.com/alibaba/RedisShake/verifrt/ev"
 	"github.com/alibaba/RedisShake/verifrt/hook"
 	"github.com/alibaba/RedisShake/verifrt/kit06"
@@ -99,6 +100,98 @@ func c06Full(c c06Case) (string, string) {
 	}
 	if n := len(srv.Scripts()); (n == 1) == c.Cfg.Lua {
 		return "lua-script", fmt.Sprintf("filter.lua=%v but %d scripts were loaded", c.Cfg.Lua, n)
+	}
+	return "", ""
+}
+
+// c06BigFile: small keys and two hashes beyond the 16 MiB chunk limit (the parser delivers each of
+// them as several entries, which different workers pick up), in an order in which a worker that
+// has just judged another key continues with a piece of a big one.
+var c06BigOnce struct {
+	file []byte
+	keys []string
+}
+
+const c06BigFields, c06BigFieldLen = 7, 6 << 20
+
+func c06BigFile() ([]byte, []string) {
+	if c06BigOnce.file != nil {
+		return c06BigOnce.file, c06BigOnce.keys
+	}
+	str := func(s string) rdbgen.Str { return rdbgen.RawStr([]byte(s), rdbgen.LCanon) }
+	small := func(k string) rdbgen.Item {
+		v := rdbgen.StringVal(str(kit06.Marker(0)))
+		c06Reg.Add(v.Type, v.Raw, v.Log)
+		return rdbgen.Key(str(k), v, rdbgen.KeyOpts{})
+	}
+	big := func(k string) rdbgen.Item {
+		var el []rdbgen.Str
+		for i := 0; i < c06BigFields; i++ {
+			val := make([]byte, c06BigFieldLen)
+			for j := 0; j < len(val); j += 4093 {
+				val[j] = byte(j + i)
+			}
+			el = append(el, str(fmt.Sprintf("f%d", i)), rdbgen.RawStr(val, rdbgen.LCanon))
+		}
+		return rdbgen.Key(str(k), rdbgen.HashVal(el, rdbgen.LCanon), rdbgen.KeyOpts{})
+	}
+	keys := []string{"a1", "b1", "abig", "b2", "a2", "bbig", "a3", "b3"}
+	items := []rdbgen.Item{rdbgen.SelectDB(0, rdbgen.LCanon)}
+	for _, k := range keys {
+		if strings.HasSuffix(k, "big") {
+			items = append(items, big(k))
+		} else {
+			items = append(items, small(k))
+		}
+	}
+	c06BigOnce.file, _ = rdbgen.File(9, items)
+	c06BigOnce.keys = keys
+	return c06BigOnce.file, keys
+}
+
+func c06FullBig(c c06Case) (string, string) {
+	file, keys := c06BigFile()
+	syncConfig{TargetDB: -1, SenderCount: 16, SenderSize: 1 << 20}.apply()
+	c.Cfg.Apply()
+	defer kit06.Reset()
+	conf.Options.Parallel = 4
+	conf.Options.KeyExists = "none"
+	conf.Options.BigKeyThreshold = 1 << 30
+	conf.Options.TargetVersion = ""
+	conf.Options.TargetType = "standalone"
+	srv := mredis.New(mredis.Options{Registry: c06Reg})
+	hook.SetDialHook(func(network, addr string) (net.Conn, error, bool) {
+		cc, sc := memconn.Pair("target")
+		go srv.Serve(sc)
+		return cc, nil, true
+	})
+	defer hook.SetDialHook(nil)
+	aborted := false
+	hook.SetExitHook(func(int) { aborted = true })
+	defer hook.SetExitHook(nil)
+	ds := syncNewDs(syncConfig{TargetDB: -1, SenderCount: 16})
+	err := ds.syncRDBFile(bufio.NewReaderSize(bytes.NewReader(file), 4096), []string{"target:6379"}, "auth", "", int64(len(file)), false)
+	if aborted || err != nil {
+		return "abort", fmt.Sprintf("full sync fails: %v", err)
+	}
+	for _, k := range keys {
+		want := kit06.Passes(c.Cfg, "full", 0, k)
+		e := srv.Lookup(0, k)
+		switch {
+		case !want && e != nil:
+			return "excluded-key-reached-target", fmt.Sprintf("key %q is excluded by the configuration and exists on the target (%d hash fields)", k, len(e.Hash))
+		case want && e == nil:
+			return "passing-key-missing", fmt.Sprintf("key %q passes the configuration and is missing on the target", k)
+		case want && strings.HasSuffix(k, "big"):
+			if len(e.Hash) != c06BigFields {
+				return "passing-key-incomplete", fmt.Sprintf("hash %q (delivered in several pieces) passes the configuration and has %d of %d fields on the target", k, len(e.Hash), c06BigFields)
+			}
+			for f, v := range e.Hash {
+				if len(v) != c06BigFieldLen {
+					return "passing-key-incomplete", fmt.Sprintf("hash %q field %q has %d bytes, expected %d", k, f, len(v), c06BigFieldLen)
+				}
+			}
+		}
 	}
 	return "", ""
 }
@@ -225,6 +318,8 @@ func TestVerif_C06(t *testing.T) {
 			k, w = c06Full(c)
 		case "incr":
 			k, w = c06Incr(t, c)
+		case "fullbig":
+			k, w = c06FullBig(c)
 		default:
 			return
 		}
@@ -277,6 +372,25 @@ func TestVerif_C06(t *testing.T) {
 				ev.Sample(path, map[string]interface{}{"config": cfg, "keys_per_db": len(kit06.Keys()), "dbs": kit06.DBs})
 			}
 		}
+	}
+	// full phase with values beyond the chunk limit: the decision for a key holds for every piece
+	sBig := fmt.Sprint(crcref.Slot([]byte("abig")))
+	for _, cfg := range []kit06.Config{{}, {KeyWhite: []string{"a"}}, {KeyBlack: []string{"a"}}, {KeyWhite: []string{"b"}}, {KeyBlack: []string{"b", "x"}}, {Slots: []string{sBig}}, {KeyWhite: []string{"a", "b"}, Slots: []string{fmt.Sprint(crcref.Slot([]byte("bbig"))), fmt.Sprint(crcref.Slot([]byte("a2")))}}} {
+		idx++
+		if !ev.Mine(idx) {
+			continue
+		}
+		c := c06Case{Path: "fullbig", Cfg: cfg}
+		k, w := c06FullBig(c)
+		n++
+		if k != "" {
+			ev.Violate("C06|fullbig|"+k, fmt.Sprintf("%s (full sync, parallel=4, %s)", w, cfg), c)
+		}
+		ev.Outcome("fullbig:" + k)
+		h := ev.HashS("fullbig" + cfg.String())
+		ev.State(h)
+		ev.Nontrivial(h)
+		ev.Sample("fullbig", map[string]interface{}{"config": cfg, "hash_fields": c06BigFields, "field_MiB": c06BigFieldLen >> 20})
 	}
 	ev.Eval(n)
 	ev.Trace(n)
